@@ -396,9 +396,18 @@ def memo_table_findings(repo: Repo, classes: Iterable[str]) -> List[Tuple[FuncIn
                     deps = _value_deps(m.node, stored) & inputs
                     if key is not None:
                         whole = _whole_names(key)
-                        for s2 in stores(m.node, into_defs=False):
-                            if s2.kind == "assign" and s2.value is not None and s2.path in {n.id for n in ast.walk(key) if isinstance(n, ast.Name)}:
-                                whole |= _whole_names(s2.value)
+                        # expand locals used in the key transitively (key = (val, limit); limit = f(ctx))
+                        frontier = {n.id for n in ast.walk(key) if isinstance(n, ast.Name)}
+                        seen_l = set()
+                        while frontier:
+                            nm = frontier.pop()
+                            if nm in seen_l:
+                                continue
+                            seen_l.add(nm)
+                            for s2 in stores(m.node, into_defs=False):
+                                if s2.kind == "assign" and s2.value is not None and s2.path == nm:
+                                    whole |= _whole_names(s2.value)
+                                    frontier |= {n.id for n in ast.walk(s2.value) if isinstance(n, ast.Name)} - seen_l
                         missing = sorted(d for d in deps if d not in whole)
                         if missing:
                             out.append((m, st.node, f"{ci.name}.{m.name}: memo self.{attr} keyed by every input of the cached value",
